@@ -3,6 +3,7 @@
 # (overlay without the generated tree; an externally supplied mutant tree is honoured).
 set -e
 W=$1
-. /verif/env.sh
-python3 /verif/mc/tools/mkoverlay.py "$W/overlay_race.json" common rand c18 ${VERIF_EXTRA_OVERLAY:-}
-cd /verif/mc && $GO build -race -overlay "$W/overlay_race.json" -o "$W/c18race.bin" ./props/c18
+here=$(cd "$(dirname "$0")" && pwd); root=$(cd "$here/../../.." && pwd)
+. "$root/env.sh"
+python3 "$root/mc/tools"/mkoverlay.py "$W/overlay_race.json" common rand c18 ${VERIF_EXTRA_OVERLAY:-}
+cd "$root/mc" && $GO build -race -overlay "$W/overlay_race.json" -o "$W/c18race.bin" ./props/c18
